@@ -817,15 +817,29 @@ func (eng *Engine) execStd(callee *ssa.Function, in ssa.CallInstruction, args []
 		}
 		return eng.fromCF(env, defaultCF(sl.Elem(), 0), sl.Elem(), eng.instrKey(in)+":cbelem")
 	}
-	if pkgPath == "slices" && len(args) == 2 {
+	if pkgPath == "slices" && (len(args) == 2 || len(args) == 3) {
 		switch base {
 		case "ContainsFunc", "IndexFunc":
-			// the callback is applied to elements of the slice; it cannot modify call-local state that matters here
-			runClosure(args[1], []AV{elemOf(args[0], in.Common().Args[0].Type())}, "cb")
+			// the callback is applied to elements of the slice; it cannot modify call-local state that matters here.
+			// A nil slice has no elements: the callback is never called.
+			if !(args[0].K == KSlice && env.nilnessOf(args[0]) == isNil) {
+				runClosure(args[1], []AV{elemOf(args[0], in.Common().Args[0].Type())}, "cb")
+			}
 			if base == "ContainsFunc" {
 				set(env, boolAV(triU))
 			} else {
 				set(env, numTop())
+			}
+			return []*Env{env}
+		case "CompareFunc", "EqualFunc":
+			// cmp(a[i], b[i]) on elements of the two slices
+			if len(args) == 3 && !(args[0].K == KSlice && env.nilnessOf(args[0]) == isNil) && !(args[1].K == KSlice && env.nilnessOf(args[1]) == isNil) {
+				runClosure(args[2], []AV{elemOf(args[0], in.Common().Args[0].Type()), elemOf(args[1], in.Common().Args[1].Type())}, "cmp")
+			}
+			if base == "CompareFunc" {
+				set(env, numTop())
+			} else {
+				set(env, boolAV(triU))
 			}
 			return []*Env{env}
 		case "SortFunc", "SortStableFunc":
